@@ -235,6 +235,7 @@ func runC11(r *mon.Run, replay string) {
 	r.Floor("hit_and_run_pairs_judged", 10)
 	r.Floor("relays_from_victim_judged", 30)
 	r.Floor("overflow_messages_delivered_total", 20)
+	r.Floor("forged_known_block_episodes_with_stored_forgery", 4)
 	r.Floor("honest_prefix_episodes_with_rolled_back_reorg", 4)
 	r.Floor("cases_with_honest_witness_on_victim_tip", 20)
 }
@@ -339,6 +340,15 @@ func genC11Cases(r *mon.Run) []c11Case {
 		}
 		stream++
 		cases = append(cases, c11Case{Stream: stream, Target: "SendCheckpoint", Fault: "silence-on-private-fork", Regime: "above", Mix: "B+H", Phased: true, HonestDials: rng.IntN(2) == 0})
+		// a forged body stored under the id of the next honest block, then the honest peer
+		for _, fg := range []string{"changed-miner-address", "extra-transaction", "dropped-transaction"} {
+			for _, first := range []bool{false, true} {
+				for i := 0; i < r.Pick(1, 2); i++ {
+					stream++
+					cases = append(cases, c11Case{Stream: stream, Target: "SendV2Blocks", Fault: "forged-body-under-known-id", Pos: fg, Regime: "above", Mix: "B+H", Phased: true, HonestDials: first, Special: "forged-known-block"})
+				}
+			}
+		}
 		// a checkpoint block that was never validated by anybody: two attackers
 		for _, fn := range []string{"state-of-parents-sibling", "checkpoint-block-with-v1-transactions"} {
 			for i := 0; i < r.Pick(2, 3); i++ {
@@ -1535,6 +1545,9 @@ func runByzCaseResult(r *mon.Run, cc c11Case) (res byzResult) {
 		return
 	case "honest-prefix":
 		runHonestPrefix(r, cc)
+		return
+	case "forged-known-block":
+		runForgedKnownBlock(r, cc)
 		return
 	}
 	sc := buildScene(r, &cc)
